@@ -10,7 +10,7 @@ RULES = {
     'C15.R2': 'normalisation divides a row and its bias by the same positive norm sqrt(sum x^2), used only under norm > eps',
     'C15.R3': 'guard directions: all-zero row dropped only under bias >= 0 (else canonical empty); duplicate only if rows AND biases compare equal; redundant only in the Optimal arm under a_i·p <= b_i + eps for objective -a_i over the other rows; Unbounded keeps, Error -> Err, Infeasible -> empty',
 }
-FLOORS = {'C15.R1': 5, 'C15.R2': 1, 'C15.R3': 6}
+FLOORS = {'C15.R1': 5, 'C15.R2': 1, 'C15.R3': 7}
 EXPLANATION = 'Provenance and guard rules: a clean-up can only drop rows of the input, and drops one only under the stated test.'
 DOES_NOT_DECIDE = 'set equality (whether a dropped row was really implied: the LP answer and relative_eq\'s tolerance), minimality of the result'
 PASS_THROUGH = {'Iterator::enumerate', 'Iterator::filter', 'Iterator::filter_map', 'Iterator::map', 'Itertools::collect_vec', 'Iterator::collect', 'Iterator::zip', 'Iterator::rev'}
@@ -109,10 +109,41 @@ def run(ctx):
                 kinds.append(fmt(y)[:50])
         (ctx.ok if ok and 'remove_rows(self)' in kinds else ctx.bad)('C15.R1', 'AffFuncBase::%s#result' % name, 'returns ' + ' | '.join(kinds) if ok else
                                                                   'result is not remove_rows of self / canonical: %s' % kinds, b.span)
+    zero_rows(ctx, F)
     normalize(ctx, F)
     tautologies(ctx, F)
     duplicates(ctx, F)
     redundant(ctx, F)
+
+
+def zero_rows(ctx, F):
+    """remove_zero_rows may drop an all-zero row only when its bias makes it a tautology (bias >= 0): the keep test must keep every
+    all-zero row with a negative bias (accepted: bias != 0, bias < 0)."""
+    from ..mir import ret_defs
+    b = ctx.body('C15.R3', 'AffFuncBase::remove_zero_rows')
+    if b is None:
+        return
+    ok = False
+    why = ''
+    for cb in b.closure_bodies():
+        if cb.parent != b.path:
+            continue
+        Rc = Resolver(cb)
+        keep_nonzero = False
+        bias_test = None
+        for (i, v, sp) in ret_defs(cb, Rc):
+            lits = literals(cb, Rc, i)
+            anyl = [l for l in lits if is_call(l[1], 'Iterator::any', 'Iterator::all')]
+            if v == ('const', True) and anyl and ((anyl[0][0] == 'true') == (anyl[0][1][1] == 'Iterator::any')):
+                keep_nonzero = True
+            elif v[0] == 'call' and v[1].startswith(('PartialEq::', 'PartialOrd::')) and v[2][0] == ('field', ('param', cb.arg_names()[1]), '1'):
+                bias_test = v[1].split('::')[-1]
+            elif v[0] == 'bin' and v[2] == ('field', ('param', cb.arg_names()[1]), '1'):
+                bias_test = v[1].lower()
+        ok = keep_nonzero and bias_test in ('ne', 'lt')
+        why = 'rows with a non-zero coefficient kept=%s, bias test=%s' % (keep_nonzero, bias_test)
+    (ctx.ok if ok else ctx.bad)('C15.R3', 'AffFuncBase::remove_zero_rows#keep-test', 'all-zero rows are dropped only with bias == 0 (a tautology); rows with negative bias are kept' if ok else
+                                'an all-zero row with a negative bias (an infeasible constraint) can be dropped: ' + why, b.span)
 
 
 def normalize(ctx, F):
